@@ -374,7 +374,14 @@ def _splice_headers(P, rep, prefix, key, doing, with_decision):
                 for x, y, yop in ((a, c, r_), (c, a, l)):
                     if x and x[0] == "index" and x[:2] == sa[:2] and len(x[2]) == 1:
                         if y and y[0] == "last" and y[2] == x[2]:
-                            got.add((x[2][0], "last"))
+                            # read in the same round: every loop the comparison stands in also holds the read of the last segment
+                            # (an earlier item of the same segment - another macro call - may have opened segments since)
+                            import rules_C16 as R16
+                            locs_, consts_, calls_, places_ = MU.backward_slice(b, [yop])
+                            reads = [bj for bj, blj in enumerate(b["blocks"]) if blj["term"]["k"] == "call" and
+                                     any(blj["term"] is c_ for c_ in calls_) and MU.callee_names(blj["term"])[1].endswith("Pass0Context::last_segment")]
+                            inside = all(bj in nodes for head, nodes in R16.natural_loops(b).items() if bi in nodes for bj in reads)
+                            got.add((x[2][0], "last" if reads and inside else "last-stale"))
                         elif isinstance(yop, dict) and "const" in yop and yop["const"].get("int") is not None:
                             got.add((x[2][0], "const %s" % yop["const"]["int"]))
                         else:
@@ -386,7 +393,9 @@ def _splice_headers(P, rep, prefix, key, doing, with_decision):
         ok = (ft, "last") in got and want_addr is not None and want_addr in got and seed["type_from_last"]
         rep.ob("%s|first-segment-decision" % prefix, ok,
                "the first expanded segment continues the current output segment exactly when it still is what the expansion was seeded with: no address of its own (%s) and the type of the output's last segment" % (seed["address"],) if ok else
-               ("the seed of an expansion carries the caller's address (not a constant): an `.org` in the body that equals it is taken for no `.org`, and a segment directive at the start of the body keeps the foreign address" if seed and seed["address"] is None else
+               ("the type the first expanded segment is compared with was read from the output's last segment before the loop over the items, not in the round of the call: after a macro call that left another segment selected, the next call on the same level is spliced by the stale type"
+                if (ft, "last-stale") in got else
+                "the seed of an expansion carries the caller's address (not a constant): an `.org` in the body that equals it is taken for no `.org`, and a segment directive at the start of the body keeps the foreign address" if seed and seed["address"] is None else
                 "the first expanded segment's address/type are not compared with what the expansion was seeded with (seed %s, comparisons found: %s): after a macro that left another segment selected or moved the origin, the next expansion lands in the wrong place" % (seed, sorted(got))),
                loc=loc_of(b["blocks"][bb]["tspan"]))
     rep.floor("segments opened while %s" % doing, len(adds), 2 if with_decision else 1)
